@@ -155,6 +155,8 @@ def gen(r, tier, i):
         'd_sd': {'k%d' % j: j for j in range(nkeys)},
         'bino': r.choice([0, 1, 5, 100, 10 ** 6]),
         'z': r.randint(1, 99),
+        # a second variable with the zero divider and an unusual (legal) mother value
+        'z2': r.choice([5, 0.5, 'inf', '-inf', [1, 2], 'abc', {'k': 1}, None, True]),
         'sv': r.randint(1, 99),
         'nodiv': r.randint(0, 99),
         'fnv': r.randint(10, 99),
@@ -211,6 +213,7 @@ def run(spec):
             'd_sd': {'_default': {}, '_updater': 'set', '_divider': 'split_dict'},
             'bino': {'_default': 0, '_divider': 'binomial'},
             'z': {'_default': 0, '_divider': 'zero'},
+            'z2': {'_default': 1.5, '_updater': 'set', '_divider': 'zero'},
             'sv': {'_default': 0, '_divider': {'divider': 'set_value', 'config': {'value': 77}}},
             'nodiv': {'_default': 0},
             'fnv': {'_default': 0, '_divider': {'divider': fn_divider, 'topology': {'x': ('..', 'z')}}},
@@ -278,6 +281,11 @@ def run(spec):
     mother_state['q_split'] = m['q_split'] * units.fg
     mother_state['arr'] = np.array(m['arr'])
     mother_state['ident'] = 'm'
+    if 'z2' in m:
+        mother_state['z2'] = {'inf': float('inf'), '-inf': float('-inf'), 'nan': float('nan')}.get(m['z2'], m['z2']) \
+            if isinstance(m['z2'], str) else copy.deepcopy(m['z2'])
+    else:
+        mother_state['z2'] = 5
     agents = {'m': {'st': copy.deepcopy(mother_state)}}
     procs_agents = {'m': {'cell': Cell({'timestep': 1.0})}}
     topo_agents = {'m': copy.deepcopy(cell_topology)}
@@ -459,6 +467,7 @@ def relations(V, mb, d1, d2, init1, init2, spec, mother):
         chk('relation.binomial', 'bino', d1['bino'] + d2['bino'] == mb['bino'] and d1['bino'] >= 0 and d2['bino'] >= 0)
     if free('z'):
         chk('relation.zero', 'z', d1['z'] == 0 and d2['z'] == 0)
+    chk('relation.zero', 'z2', _same(d1.get('z2'), 0) and _same(d2.get('z2'), 0))
     if free('sv'):
         chk('relation.set_value', 'sv', d1['sv'] == 77 and d2['sv'] == 77)
     a, b, mm = int(d1['env_n']), int(d2['env_n']), int(mb['env_n'])
